@@ -175,6 +175,9 @@ func r172(c *Ctx, r *R) {
 	if w != nil {
 		order := []string{"raft.raftWrapper).WaitForLeader", "raft.raftWrapper).WaitForVoter", "raft.raftWrapper).WaitForUpdates"}
 		var calls []ssa.CallInstruction
+		if r172Table(c, r, w, order) {
+			goto join
+		}
 		for _, p := range order {
 			cs := findCalls(w, false, p)
 			if len(cs) != 1 {
@@ -192,6 +195,7 @@ func r172(c *Ctx, r *R) {
 			}
 		}
 	}
+join:
 	j := c.fn(r, "", "Cluster.Join")
 	if j != nil {
 		ws := findCalls(j, false, ModPath+".Consensus).WaitForSync")
@@ -258,4 +262,57 @@ func r174(c *Ctx, r *R) {
 		ok := len(cs) == 1 && guardedBy(cs[0].Block(), func(g Guard) bool { return gField(g, "shutdown", true) })
 		r.Check(ok, "raft-clean:only-when-shutdown", cc.Pos(), "raft data is cleaned only when the component is shut down", "raft.Clean removes the data of a running consensus component")
 	}
+}
+
+// r172Table decides the WaitForSync clauses when the three waits are kept as
+// a table of steps run by a loop (see stepTable): each wait is the whole
+// result of its row's function, the rows are in the required order, and nil
+// is returned only after the loop ran out of rows.
+func r172Table(c *Ctx, r *R, w *ssa.Function, order []string) bool {
+	for _, tb := range stepTablesOf(w) {
+		rowOf := map[string]int{}
+		for k, fn := range tb.Fns {
+			for _, p := range order {
+				cs := findCalls(fn, false, p)
+				if len(cs) != 1 {
+					continue
+				}
+				// the row answers with this call's error and nothing else
+				whole := true
+				for _, lf := range returnLeaves(fn, 0) {
+					cc, idx := originCall(lf.Val)
+					if cc == nil || ssa.Instruction(cc) != ssa.Instruction(cs[0].(*ssa.Call)) || idx != cc.Common().Signature().Results().Len()-1 {
+						whole = false
+					}
+				}
+				if whole {
+					if _, dup := rowOf[p]; dup {
+						return false
+					}
+					rowOf[p] = k
+				}
+			}
+		}
+		if len(rowOf) != len(order) {
+			continue
+		}
+		// nothing else in WaitForSync calls the waits
+		for _, p := range order {
+			if len(findCalls(w, false, p)) != 0 {
+				return false
+			}
+		}
+		okOrder := rowOf[order[0]] < rowOf[order[1]] && rowOf[order[1]] < rowOf[order[2]]
+		r.Check(okOrder, "sync:order", tb.Call.Pos(), "leader, then voter, then updates (rows of a step table run in order, the first failure returns)", "WaitForSync does not wait for leader, voter and updates in that order")
+		for _, lf := range returnLeaves(w, 0) {
+			if isNilConst(lf.Val) {
+				r.Check(mustPass(lf.Block, tb.ExitEdge), "sync:nil-after-updates", lf.Pos, "nil only after every step of the table returned nil", "WaitForSync returns nil before WaitForUpdates succeeded")
+			}
+		}
+		for _, p := range order {
+			r.OK("sync:"+p, tb.Call.Pos(), "%s is one step of the table", p)
+		}
+		return true
+	}
+	return false
 }
